@@ -44,7 +44,8 @@ impl Default for MultiOpts {
     }
 }
 
-fn write_patches(w: &mut BitWriter, patches: &[PatchModel], num_extra: usize, src: &mut Src) {
+/// Patch dictionary (LfGlobal, frame flag kPatches): one entropy-coded stream with 10 contexts.
+pub fn write_patches(w: &mut BitWriter, patches: &[PatchModel], num_extra: usize, src: &mut Src) {
     let mut ops = vec![Op::Lit { ctx: 0, value: patches.len() as u32 }];
     for p in patches {
         ops.push(Op::Lit { ctx: 1, value: p.ref_slot as u32 });
